@@ -40,9 +40,19 @@ import (
 type stubRoute struct {
 	routetab.RouteTab
 	nbrs map[string]bool
+	// after: one-shot callback run right after a neighbour lookup has been answered, on the
+	// caller's goroutine ("the link drops immediately after the lookup")
+	after func(a boson.Address)
 }
 
-func (r *stubRoute) IsNeighbor(a boson.Address) bool { return r.nbrs[a.ByteString()] }
+func (r *stubRoute) IsNeighbor(a boson.Address) bool {
+	has := r.nbrs[a.ByteString()]
+	if f := r.after; f != nil {
+		r.after = nil
+		f(a)
+	}
+	return has
+}
 func (r *stubRoute) Connect(ctx context.Context, dest boson.Address) error {
 	return errors.New("stub: no connect")
 }
@@ -105,7 +115,10 @@ type published struct {
 	msg   multicast.Message
 	event string
 }
-type stubSubPub struct{ pubs []published }
+type stubSubPub struct {
+	mu   sync.Mutex
+	pubs []published
+}
 
 func (s *stubSubPub) Subscribe(n subscribe.INotifier, ns, kind, param string) error { return nil }
 func (s *stubSubPub) PublishArray(ns, kind, field string, l []interface{}) error    { return nil }
@@ -118,7 +131,9 @@ func (s *stubSubPub) Publish(ns, kind, param string, message interface{}) error 
 		p.event = m.Event
 		p.msg = m.Data
 	}
+	s.mu.Lock()
 	s.pubs = append(s.pubs, p)
+	s.mu.Unlock()
 	return nil
 }
 
@@ -185,6 +200,8 @@ type world struct {
 	gidsSeen   map[string]bool
 	slept      bool
 	panicked   bool
+	lastG      string // Coq text of the gev of the last registry event
+	sigSuffix  string // appended to connected:not-neighbour (which scenario family found it)
 }
 
 var logger = logging.New(io.Discard, 0)
@@ -350,7 +367,7 @@ func (w *world) checkGroups(ni int, afterPrune string) {
 					}
 				}
 				if !queued {
-					w.violate("connected:not-neighbour", fmt.Sprintf("node %d group %s: %s connected but not a neighbour, no disconnect pending", ni, l.gid, hexOf(p)), hexOf(p), "neighbour")
+					w.violate("connected:not-neighbour"+w.sigSuffix, fmt.Sprintf("node %d group %s: %s connected but not a neighbour, no disconnect pending", ni, l.gid, hexOf(p)), hexOf(p), "neighbour")
 				}
 			}
 		}
@@ -456,7 +473,7 @@ func (w *world) exec(e jev) {
 	w.run.Hist("ev." + e.K)
 	var coqEv, coqObs string
 	coqObs = "ONone"
-	gev := func(n int, g string) string { return hx.CoqApp("EvG", hx.CoqNat(n), g) }
+	gev := func(n int, g string) string { w.lastG = g; return hx.CoqApp("EvG", hx.CoqNat(n), g) }
 	groupEvent := func(n int, f func(nd *hnode)) {
 		if n < 0 || n >= len(w.nodes) {
 			return
@@ -1012,6 +1029,136 @@ func genCorpusStale(run *hx.Run) {
 	w.finish("corpus-stale-object", true)
 }
 
+// ------------------------------------------------------------------ add ∥ disconnect
+//
+// The interleaving "neighbour lookup of an add — link drops — disconnect handling — rest of the add",
+// made deterministic: the route stub runs a callback right after answering IsNeighbor; the callback
+// drops the link, dispatches the disconnect handling (what the loop of Start does) on another
+// goroutine and gives it a bounded time to finish. In the code as it is the lookup happens while the
+// add holds g.mux, so the handler blocks on that group until the add is done; a lookup made before
+// the lock lets the handler finish first. Either order must leave every connected peer a neighbour
+// once the add and the handler are both done.
+func genConc(run *hx.Run, r *hx.Rand, fixed bool, viaHandshake bool) {
+	w := newWorld(run, []string{hexb(0xA7, 0x01)})
+	w.sigSuffix = ":after-concurrent-disconnect"
+	p := hexb(0x12, 0x34)
+	other := hexb(0x13, 0x35)
+	ng := 1
+	if !fixed {
+		ng = 1 + r.Intn(3)
+	}
+	gids := make([]string, ng)
+	var ksteps []string
+	at := func(e jev) {
+		w.exec(e)
+		ksteps = append(ksteps, hx.CoqApp("KAt", w.lastG))
+	}
+	for i := range gids {
+		gids[i] = hexb(0xE8, byte(i))
+		at(jev{K: "new", Gid: gids[i], T: r.Intn(3)})
+	}
+	at(jev{K: "connect", P: p})
+	at(jev{K: "connect", P: other})
+	target := gids[r.Intn(ng)]
+	if !fixed {
+		// the peer may already sit in some list of some group; another peer too
+		for _, g := range gids {
+			switch r.Intn(5) {
+			case 0:
+				at(jev{K: "add", Gid: g, P: p, B: true}) // connected
+			case 1:
+				at(jev{K: "add", Gid: g, P: p, B: false}) // known
+			}
+			if r.Bool() {
+				at(jev{K: "add", Gid: g, P: other, B: r.Bool()})
+			}
+		}
+	}
+	keep := fixed || viaHandshake || r.Chance(5, 6)
+	kind := "conc"
+	if fixed {
+		kind = "corpus-conc"
+	}
+	runConc(w, ksteps, target, p, keep, viaHandshake, kind)
+}
+
+// runConc performs the add with the disconnect handling dispatched from inside its neighbour lookup.
+func runConc(w *world, ksteps []string, target, p string, keep, viaHandshake bool, kind string) {
+	run := w.run
+	nd := w.nodes[0]
+	multicast.VerifSwapCache(nd.cache)
+	nd.svc.VerifUnthrottle()
+	done := make(chan struct{})
+	fired, handlerFirst := false, false
+	dropLink := func() {
+		delete(nd.route.nbrs, ad(p).ByteString())
+		go func() {
+			defer close(done)
+			nd.svc.VerifPeerDisconnected(ad(p))
+		}()
+	}
+	nd.route.after = func(a boson.Address) {
+		fired = true
+		dropLink()
+		select {
+		case <-done:
+			handlerFirst = true
+		case <-time.After(120 * time.Millisecond):
+		}
+	}
+	if pn, msg := hx.Guard(func() {
+		if viaHandshake {
+			m := &pb.GIDs{Gid: [][]byte{unhex(target)}}
+			var buf bytes.Buffer
+			_ = protobuf.NewWriter(&buf).WriteMsg(m)
+			w.callHandler(nd, "handshake", ad(p), buf.Bytes())
+		} else {
+			nd.svc.VerifGroupAdd(ad(target), ad(p), keep)
+		}
+	}); pn {
+		w.violate("panic:add-during-disconnect", msg, msg, "no panic")
+	}
+	nd.route.after = nil
+	if !fired { // keep = false asks nothing: the link drops after the add
+		dropLink()
+	}
+	select {
+	case <-done:
+	case <-time.After(5 * time.Second):
+		w.violate("disconnect-handler:stuck", "the disconnect handling did not finish within 5 s of the add returning", nil, "finished")
+	}
+	// both are done, nothing is queued (nd.pending is empty): the oracle of every registry event
+	run.OracleChecked(1)
+	w.checkGroups(0, "")
+	nd.sub.pubs = nil
+	w.jc.Evs = append(w.jc.Evs, jev{K: "conc", Gid: target, P: p, B: keep, T: map[bool]int{false: 0, true: 1}[viaHandshake]})
+	run.Hist(fmt.Sprintf("conc.handlerFirst=%v", handlerFirst))
+	run.Hist(fmt.Sprintf("conc.lookupFired=%v", fired))
+	if viaHandshake {
+		// updatePeerGroupsJoin does more than one add: oracle only
+		run.AddCase("", w.jc, kind+"-handshake|"+strings.Join(ksteps, ";"), true)
+		run.Hist("case." + kind + "-handshake")
+		return
+	}
+	n := len(nd.svc.VerifGroupIDs()) + 1
+	disc := hx.CoqApp("KAt", hx.CoqApp("EDisconnect", coqAddr(unhex(p))))
+	start := hx.CoqApp("KAddStart", coqAddr(unhex(target)), coqAddr(unhex(p)), hx.CoqBool(keep))
+	visit := hx.CoqApp("KHVisit", hx.CoqNat(n))
+	switch {
+	case !fired:
+		ksteps = append(ksteps, start, "KAddCommit", disc, "KHPop", visit)
+	case handlerFirst: // only possible when the lookup is made outside the lock
+		ksteps = append(ksteps, start, "KAddRead", disc, "KHPop", visit, "KAddCommit", visit)
+	default:
+		ksteps = append(ksteps, start, "KAddRead", disc, "KHPop", visit, "KAddCommit", visit)
+	}
+	dump := strings.TrimSuffix(strings.TrimPrefix(w.dump(0), "(ODump "), ")")
+	body := hx.CoqApp("CConc", hx.CoqList(ksteps, "kev"), dump)
+	coq := "(" + strings.Join(internDefs, "") + body + ")"
+	run.AddCase(coq, w.jc, kind+"|"+strings.Join(ksteps, ";")+"|"+dump, true)
+	run.Hist("case." + kind)
+}
+
 func main() {
 	run := hx.Start("C38", "Aurora.C38.Corr",
 		"whole runs on the real multicast.Service: (a) random histories of group add/remove/prune/handshake/notify/gc/connect/disconnect events on one node, dump after every event; (b) pruneKnown around maxKnownPeers; (c) flooding over 2..6 simulated nodes (members, observers, relays; asymmetric connected/kept edges; explicit origins, skip lists, drops, duplicates, forged packets) drained to quiescence; non-trivial = at least 5 events / known list above the maximum / any flooding run; distinct by the full (event, observation) sequence")
@@ -1022,14 +1169,30 @@ func main() {
 			panic(err)
 		}
 		w := newWorld(run, jc.Selfs)
+		var ksteps []string
+		conc := false
 		for _, e := range jc.Evs {
+			if e.K == "conc" {
+				w.sigSuffix = ":after-concurrent-disconnect"
+				runConc(w, ksteps, e.Gid, e.P, e.B, e.T == 1, "replay-conc")
+				conc = true
+				break
+			}
 			w.exec(e)
+			ksteps = append(ksteps, hx.CoqApp("KAt", w.lastG))
 		}
-		w.finish("replay", true)
+		if !conc {
+			w.finish("replay", true)
+		}
 		run.Finish()
 		return
 	}
 	genCorpusStale(run)
+	genConc(run, r.Fork(4242), true, false) // corpus: seeded change C38-3 (IsNeighbor before g.mux)
+	genConc(run, r.Fork(4243), true, true)
+	for i := 0; i < run.N(14, 120); i++ {
+		genConc(run, r.Fork(uint64(5000+i)), false, i%4 == 3)
+	}
 	for i := 0; i < run.N(40, 400); i++ {
 		genGroups(run, r.Fork(uint64(i)), 8+r.Intn(32), i%7 == 3)
 	}
